@@ -195,7 +195,14 @@ def run(prop_id, tier, replay=None):
         i, why = failures[0]
         case = cases[i]
         try:
-            case = _canon(P.shrink(case, lambda cc: bool(safe_spec(P, cc, safe_run(P, cc)))))
+            known_cls = {k.get("match", {}).get("class") for k in known}
+
+            def still_fails(cc):
+                # a smaller case counts only if it fails for a reason that is not a listed known finding (the shrinker must not slip
+                # from a new violation into a known one)
+                w = safe_spec(P, cc, safe_run(P, cc))
+                return bool(w) and not (P.classify(cc, w) in known_cls and P.classify(cc, w))
+            case = _canon(P.shrink(case, still_fails))
             why = safe_spec(P, case, safe_run(P, case)) or why
         except Exception:
             case = cases[i]
